@@ -98,10 +98,10 @@ def Slot.key : Slot → Key
   | .fieldObj => ("EXPR_ATTR", [], "attr.record_value")
   | .matchScrut => ("EXPR_MATCH", [], "match.expr_value")
   | .armItem => ("EXPR_MATCH", ["MATCH_GUARD_ITEM"], "match.match_guards[].guard_item.expr_value")
-  | .armRecd => ("EXPR_MATCH", ["MATCH_GUARD_RECORD"], "match.match_guards[].guard_record.expr_value")
+  | .armRecd => ("EXPR_MATCH", ["MATCH_GUARD_RECORD", "has:match.match_guards[].guard_record.guard.matchbinds&has:match.match_guards[].guard_record.guard.stab"], "match.match_guards[].guard_record.expr_value")
   | .armEls => ("EXPR_MATCH", ["MATCH_GUARD_ELSE"], "match.match_guards[].guard_else.expr_value")
   | .ifLetScrut => ("EXPR_IFLET", [], "iflet_value.expr_value")
-  | .ifLetThen => ("EXPR_IFLET", [], "iflet_value.then_value")
+  | .ifLetThen => ("EXPR_IFLET", ["IFLET_TYPE_RECORD&has:iflet_value.guard_record.matchbinds&has:iflet_value.guard_record.stab"], "iflet_value.then_value")
   | .ifLetElse => ("EXPR_IFLET", [], "iflet_value.else_value")
   | .compGen => ("EXPR_LISTCOMP", ["QUALIFIER_GENERATOR"], "listcomp_value.list[].expr_value")
   | .compFilter => ("EXPR_LISTCOMP", ["QUALIFIER_FILTER"], "listcomp_value.list[].expr_value")
@@ -127,11 +127,14 @@ def refTab : Slot → Pass
 
 /-- the symbol table a visit hands down (`inherit` = the one it received).  A block hands down ITS table,
 which holds every `let`/`var`/function item of the block (whatever their order); a list comprehension its
-own (the generator variables).  `match` arms and `if let` branches receive the ENCLOSING table: the names a
-guard binds are invisible to the marker unless the arm is a block (`hiddenBinders`, `opensTable`). -/
+own (the generator variables); the arm of a RECORD guard with bindings and the then-branch of a record `if let` with
+bindings the GUARD's table, which holds the bound names (since fix f0e3e9c; a record guard without bindings hands down the
+enclosing table: the spelled-out `else:` rows of `layout`). -/
 def refScope : Slot → String
   | .seqLastExpr | .seqInitExpr | .seqLastBind | .seqInitBind => "seq_value.stab"
   | .compGen | .compFilter | .compBody => "listcomp_value.stab"
+  | .armRecd => "match.match_guards[].guard_record.guard.stab"
+  | .ifLetThen => "iflet_value.guard_record.stab"
   | .funcBody | .catchOne | .catchAll => "stab"
   | .seqLastFunc | .seqInitFunc | .lamFn | .progLastFunc | .progInitFunc => "-"
   | _ => "inherit"
@@ -172,8 +175,12 @@ def layout : List (Slot ⊕ Row) :=
    .inl .assignL, .inl .assignR,
    .inl .whileC, .inl .whileB, .inl .doWhileC, .inl .doWhileB,
    .inl .forI, .inl .forC, .inl .forS, .inl .forB, .inl .forInColl, .inl .forInBody,
-   .inl .ifLetScrut, .inl .ifLetThen, .inl .ifLetElse,
-   .inl .matchScrut, .inl .armItem, .inl .armRecd, .inl .armEls,
+   .inl .ifLetScrut, .inl .ifLetThen,
+   x "EXPR_IFLET" ["else:IFLET_TYPE_RECORD&has:iflet_value.guard_record.matchbinds&has:iflet_value.guard_record.stab"] "iflet_value.then_value" .op,
+   .inl .ifLetElse,
+   .inl .matchScrut, .inl .armItem, .inl .armRecd,
+   x "EXPR_MATCH" ["MATCH_GUARD_RECORD", "else:has:match.match_guards[].guard_record.guard.matchbinds&has:match.match_guards[].guard_record.guard.stab"] "match.match_guards[].guard_record.expr_value" .op,
+   .inl .armEls,
    .inl .builtinArg,
    x "EXPR_CONV" [] "conv.expr_value" .skip,
    .inl .compGen, .inl .compFilter, .inl .compBody,
@@ -220,9 +227,11 @@ def specTailKeys : List Key :=
   [("EXPR_COND", [], "middle"), ("EXPR_COND", [], "right"),
    ("EXPR_SUP", [], "left"), ("EXPR_PIPEL", [], "right"),
    ("EXPR_SEQ", ["SEQ_TYPE_EXPR"], "seq_value.list[head].expr_value"),
-   ("EXPR_IFLET", [], "iflet_value.then_value"), ("EXPR_IFLET", [], "iflet_value.else_value"),
+   ("EXPR_IFLET", ["IFLET_TYPE_RECORD&has:iflet_value.guard_record.matchbinds&has:iflet_value.guard_record.stab"], "iflet_value.then_value"), ("EXPR_IFLET", ["else:IFLET_TYPE_RECORD&has:iflet_value.guard_record.matchbinds&has:iflet_value.guard_record.stab"], "iflet_value.then_value"),
+   ("EXPR_IFLET", [], "iflet_value.else_value"),
    ("EXPR_MATCH", ["MATCH_GUARD_ITEM"], "match.match_guards[].guard_item.expr_value"),
-   ("EXPR_MATCH", ["MATCH_GUARD_RECORD"], "match.match_guards[].guard_record.expr_value"),
+   ("EXPR_MATCH", ["MATCH_GUARD_RECORD", "has:match.match_guards[].guard_record.guard.matchbinds&has:match.match_guards[].guard_record.guard.stab"], "match.match_guards[].guard_record.expr_value"),
+   ("EXPR_MATCH", ["MATCH_GUARD_RECORD", "else:has:match.match_guards[].guard_record.guard.matchbinds&has:match.match_guards[].guard_record.guard.stab"], "match.match_guards[].guard_record.expr_value"),
    ("EXPR_MATCH", ["MATCH_GUARD_ELSE"], "match.match_guards[].guard_else.expr_value")]
 
 def specTailKey (k : Key) : Bool := specTailKeys.contains k
@@ -321,32 +330,45 @@ def kid (e : Expr) (s : Slot) (i : Nat) : Option Expr :=
   -- `layout` (`EXPR_RANGE*`, `EXPR_SLICE`, `EXPR_PIPEL`), compared with the regenerated table but not part of the path model
   | .lit _ | .var _ | .lam _ | .enumVal _ _ | .range _ | .slice _ _ | .pipe _ _ _ => none
 
-/-- the visit of this child hands down a table of the construct's own (`refScope s ≠ "inherit"`): a block's, a list
-comprehension's.  tailrec.c's lookup then starts in THAT table and follows its parent links, which are the true lexical
-chain: everything bound around the block is visible. -/
-def opensTable : Slot → Bool
-  | .seqLastExpr | .seqInitExpr | .seqLastBind | .seqInitBind | .compGen | .compFilter | .compBody => true
-  | _ => false
-
-/-- the names the table handed to this child holds: EVERY `let`/`var`/function item of the block (whatever their order),
-the generator variables of a comprehension -/
-def cBinders (e : Expr) (s : Slot) : List Name :=
-  match e, s with
-  | .seq items, .seqLastExpr | .seq items, .seqInitExpr | .seq items, .seqLastBind | .seq items, .seqInitBind =>
-    itemBinders items
-  | .listcomp _ quals _, .compGen | .listcomp _ quals _, .compFilter | .listcomp _ quals _, .compBody =>
-    qualBinders quals
-  | _, _ => []
-
-/-- the names a construct binds for this child in a table of its own that is NOT handed to the visit (`match` arms,
-`if let` branches and `for … in` bodies are visited with the ENCLOSING table): the marker's lookup does not see them — until a
-block below opens its table, whose parent links lead through them -/
-def hiddenBinders (e : Expr) (s : Slot) (i : Nat) : List Name :=
+/-- the names a record guard binds for this child (`match` arm by record guard, then-branch of a record `if let`) -/
+def guardBinds (e : Expr) (s : Slot) (i : Nat) : List Name :=
   match e, s with
   | .matchE _ gs, .armRecd => match gs[i]? with
     | some (.recd _ _ binds _) => binds
     | _ => []
   | .ifLet (.recd _ _ binds _) _ _, .ifLetThen => binds
+  | _, _ => []
+
+/-- the slots whose visit MAY hand down a table of the construct's own (`refScope` names it) -/
+def mayOpen : Slot → Bool
+  | .seqLastExpr | .seqInitExpr | .seqLastBind | .seqInitBind | .compGen | .compFilter | .compBody | .armRecd | .ifLetThen => true
+  | _ => false
+
+/-- the visit of this child hands down a table of the construct's own: a block's, a list comprehension's, and — since
+fix f0e3e9c — the table of a record guard that binds names (`matchbinds != NULL`).  tailrec.c's lookup then starts in THAT
+table and follows its parent links, which are the true lexical chain: everything bound around it is visible. -/
+def opensTable (e : Expr) (s : Slot) (i : Nat) : Bool :=
+  match s with
+  | .seqLastExpr | .seqInitExpr | .seqLastBind | .seqInitBind | .compGen | .compFilter | .compBody => true
+  | .armRecd | .ifLetThen => !(guardBinds e s i).isEmpty
+  | _ => false
+
+/-- the names the table handed to this child holds: EVERY `let`/`var`/function item of the block (whatever their order),
+the generator variables of a comprehension, the names a record guard binds -/
+def cBinders (e : Expr) (s : Slot) (i : Nat) : List Name :=
+  match e, s with
+  | .seq items, .seqLastExpr | .seq items, .seqInitExpr | .seq items, .seqLastBind | .seq items, .seqInitBind =>
+    itemBinders items
+  | .listcomp _ quals _, .compGen | .listcomp _ quals _, .compFilter | .listcomp _ quals _, .compBody =>
+    qualBinders quals
+  | _, _ => guardBinds e s i
+
+/-- the names a construct binds for this child in a table of its own that is NOT handed to the visit: the `for … in`
+variable (the body is visited with the enclosing table — and with SKIP).  The marker's lookup does not see them until a
+block below opens its table, whose parent links lead through them.  (Before fix f0e3e9c the names bound by record guards
+were hidden in the same way: `hiddenBindersPinned`.) -/
+def hiddenBinders (e : Expr) (s : Slot) (_i : Nat) : List Name :=
+  match e, s with
   | .forIn x _ _, .forInBody => [x]
   | _, _ => []
 
@@ -388,7 +410,7 @@ def markedAt (tab : Slot → Pass) (self : Name) : List Name → List Name → B
     match kid e s i with
     | none => false
     | some c =>
-      if opensTable s then markedAt tab self (cBinders e s ++ pend ++ seen) [] (flag (tab s) op) c p
+      if opensTable e s i then markedAt tab self (cBinders e s i ++ pend ++ seen) [] (flag (tab s) op) c p
       else markedAt tab self seen (hiddenBinders e s i ++ pend) (flag (tab s) op) c p
 
 /-- func_tailrec_native: the body -/
@@ -402,6 +424,31 @@ def markedInCatch (tab : Slot → Pass) (fn : Func) (j : Nat) (p : Path) : Bool 
     markedAt tab fn.name (paramBinders fn.params) []
       (flag (tab (if c.exc.isSome then .catchOne else .catchAll)) false) c.body p
   | none => false
+
+/-! ### the lookup of the pinned tree (before fix f0e3e9c), kept for the record -/
+
+/-- before f0e3e9c only blocks and comprehensions handed down their table -/
+def opensTablePinned : Slot → Bool
+  | .seqLastExpr | .seqInitExpr | .seqLastBind | .seqInitBind | .compGen | .compFilter | .compBody => true
+  | _ => false
+
+/-- … and the names bound by record guards stayed invisible until the next block -/
+def hiddenBindersPinned (e : Expr) (s : Slot) (i : Nat) : List Name := guardBinds e s i ++ hiddenBinders e s i
+
+/-- the marker with the pinned tree's lookup -/
+def markedAtPinned (tab : Slot → Pass) (self : Name) : List Name → List Name → Bool → Expr → Path → Bool
+  | seen, _, op, e, [] => op && isSelfCall self seen e
+  | seen, pend, op, e, (s, i) :: p =>
+    match kid e s i with
+    | none => false
+    | some c =>
+      if opensTablePinned s then
+        markedAtPinned tab self ((match e with | .seq items => itemBinders items | .listcomp _ q _ => qualBinders q | _ => []) ++ pend ++ seen) []
+          (flag (tab s) op) c p
+      else markedAtPinned tab self seen (hiddenBindersPinned e s i ++ pend) (flag (tab s) op) c p
+
+def markedInBodyPinned (tab : Slot → Pass) (fn : Func) (p : Path) : Bool :=
+  markedAtPinned tab fn.name (paramBinders fn.params) [] (flag (tab .funcBody) false) fn.body p
 
 /-! ### SPEC on paths -/
 
